@@ -22,7 +22,7 @@ func ctxWalk(t *Term, inh string, ro bool, m map[int]string) {
 			own = "unsafe"
 		case t.K == "safe":
 			own = "safe"
-		case t.K == "obj" && hasCap(t, "REG") && !hasCap(t, "NILP"):
+		case hasCap(t, "REG") && !hasCap(t, "NILP"): // a registered type, whatever its kind
 			own = "safe"
 		case t.K == "obj" && hasCap(t, "SV") && !ro:
 			own = "safe"
@@ -156,7 +156,7 @@ func pubWalk(t *Term, inh string, ro bool, pub map[int]bool) {
 			own = "unsafe"
 		case t.K == "safe":
 			own = "safe"
-		case t.K == "obj" && hasCap(t, "REG") && !hasCap(t, "NILP"):
+		case hasCap(t, "REG") && !hasCap(t, "NILP"): // a registered type, whatever its kind
 			own = "safe"
 		case t.K == "obj" && hasCap(t, "SV") && !ro:
 			own = "safe"
